@@ -24,6 +24,14 @@ CHECKS = {
              text="TLC proves CompleteOrError / OnlyFramePrefix for the looping writer under every partial-accept schedule, Ok(0) and failure (and shows the single-write variant violates it). Recorded write calls (payload, bytes the stream accepted, result, whether a failure or Ok(0) was injected) must satisfy the same invariants; the framing reference is evaluated by TLC for payload lengths 0..70000 on three layers and compared with what reached the stream.",
              note="Trusted: TLC, adversarial stream bookkeeping, pattern-based content comparison in the table part. Ok(0) may yield either an error or a retry.",
              ref="DESIGN.md section 6 C14"),
+ "C03": dict(cat="model_checking", tech="TLA+ spec Rdp.tla (negotiation, TLS, CredSSP rounds, MCS, licence, Activation) model-checked by TLC; TLC-drawn (configuration, conforming server) plans run end to end over real TLS/NLA; trace validation (Trace_Rdp.tla) with every frame decoded by the TLA+ wire grammar",
+             text="TLC proves MandatedPrefix / JoinsOncePerChannel / ConnIdsEcho / MustSucceed / IdsEcho / OneFinalisePerDA on the composed connection model for every configuration class and server choice. Hundreds of TLC-drawn conforming servers x configurations (thousands in thorough, plus every user id 1001..65535) are executed through Connector::connect against an independent in-process reference server (TLS via OpenSSL, NTLMv2/CredSSP written from MS-NLMP/MS-CSSP), then activation(s), input and shutdown; the server-side log of every client and server message must be a behaviour of Rdp.tla, including success of connect.",
+             note="Trusted: TLC, OpenSSL, the reference server as byte producer (its frames are re-decoded by WireServer.tla/WireNla.tla). Conforming-server assumptions listed in the evidence.",
+             ref="DESIGN.md section 6 C03"),
+ "C04": dict(cat="model_checking", tech="the strict independent parser is the TLA+ wire grammar (WireClient.tla, WireNla.tla) evaluated by TLC on every distinct frame the client wrote in TLC-drawn connections and a name/credential/size sweep; grammar self-checked by TLC against the repository's captured vectors (MC_Wire.tla)",
+             text="Every distinct client frame of whole connections over TLS/NLA (TLC-drawn configurations, plus a sweep of client name, domain, user, password over empty / 1..64 code points / 2-byte / 3-byte / surrogate pairs / 15-16-17 unit boundary, screen sizes 0..65535, id boundaries, both Client Info variants) and of activation/input runs is decoded by TLC with the strict grammar: TPKT, X.224, MCS PER, BER connect-initial with DomainParameters, GCC CCrq with CS_CORE/CS_SECURITY/CS_NET, Client Info (+extended), share control/data, confirm active with per-type capability sizes, input PDU, TSRequest DER, NTLM NEGOTIATE/AUTHENTICATE length-offset pairs. Any Bad(reason) or panic is a violation.",
+             note="Trusted: TLC and my transcription of the protocol documents (cross-checked by TLC against vectors in the repository's tests: accepted, and single-field corruptions rejected). Sealed TSCredentials are parsed under C17.",
+             ref="DESIGN.md section 6 C04"),
 }
 
 NOT_YET = {
